@@ -4,6 +4,7 @@ import (
 	"context"
 	"errors"
 	"fmt"
+	"math"
 	"sync"
 	"testing"
 	"testing/synctest"
@@ -60,8 +61,28 @@ func genSleep(t *rapid.T) SleepPlan {
 	}
 	p.Deadline = rel("deadline")
 	p.CancelAt = rel("cancelat")
+	if rapid.IntRange(0, 5).Draw(t, "extreme") == 0 {
+		// durations at the end of the range, with contexts that end the call at once (nobody waits 292 years);
+		// "deadline-only" is a context that reports a deadline but never signals Done (a legal implementation)
+		p.D = rapid.SampledFrom([]int64{math.MaxInt64, math.MaxInt64 - 1, 1 << 62}).Draw(t, "hugeD")
+		p.Ctx = rapid.SampledFrom([]string{"expired-deadline", "deadline-only", "deadline-only", "deadline", "cancelled"}).Draw(t, "hugectx")
+		p.Deadline = rapid.SampledFrom([]int64{-int64(time.Hour), -1, 0, 1, int64(time.Second), math.MinInt64}).Draw(t, "hugedeadline") // MinInt64: the zero time.Time
+		if p.Ctx == "deadline" && p.Deadline <= 0 {
+			p.Deadline = int64(time.Second)
+		}
+	} else if rapid.IntRange(0, 7).Draw(t, "dlonly") == 0 {
+		p.Ctx = "deadline-only"
+	}
 	return p
 }
+
+// deadlineOnly reports a deadline but never signals Done.
+type deadlineOnly struct {
+	context.Context
+	dl time.Time
+}
+
+func (d deadlineOnly) Deadline() (time.Time, bool) { return d.dl, true }
 
 func runSleep(p SleepPlan) (vk.Outcome, error) {
 	var out vk.Outcome
@@ -81,6 +102,14 @@ func runSleep(p SleepPlan) (vk.Outcome, error) {
 			cancels = append(cancels, c)
 			hasDeadline = true
 			p.Deadline = -int64(time.Second)
+		}
+		if p.Ctx == "deadline-only" {
+			dl := time.Now().Add(time.Duration(p.Deadline))
+			if p.Deadline == math.MinInt64 {
+				dl = time.Time{}
+			}
+			ctx = deadlineOnly{ctx, dl}
+			hasDeadline = true
 		}
 		switch p.Ctx {
 		case "deadline", "deadline+cancel", "cancelled+deadline":
@@ -136,7 +165,7 @@ func runSleep(p SleepPlan) (vk.Outcome, error) {
 		}
 		// when does the context end (relative to the call), if at all?
 		ctxEnd := int64(-1)
-		if hasDeadline {
+		if hasDeadline && p.Ctx != "deadline-only" {
 			ctxEnd = p.Deadline
 		}
 		if cancelAt >= 0 && (ctxEnd < 0 || cancelAt < ctxEnd) {
@@ -247,7 +276,13 @@ func genTicker(t *rapid.T) TickerPlan {
 	p.D, p.J = genDJ(t, "new")
 	n := rapid.IntRange(1, 25).Draw(t, "n")
 	for i := 0; i < n; i++ {
-		e := TEvent{Op: rapid.SampledFrom([]string{"sleep", "sleep", "read", "wait", "wait", "wait", "reset", "stop"}).Draw(t, "op")}
+		e := TEvent{Op: rapid.SampledFrom([]string{"sleep", "sleep", "read", "wait", "wait", "wait", "reset", "stop", "stopreset"}).Draw(t, "op")}
+		if e.Op == "stopreset" { // Stop at the very instant a tick is due, then Reset at once
+			e.D, e.J = genDJ(t, "reset")
+			if !inDomain(e.D, e.J) {
+				e.D, e.J = 1000, 0
+			}
+		}
 		switch e.Op {
 		case "sleep":
 			e.Dt = rapid.SampledFrom([]int64{0, 1, 2, 3, 5, 10, 25}).Draw(t, "dt") // in tenths of the current d
@@ -390,6 +425,29 @@ func runTicker(p TickerPlan) (vk.Outcome, error) {
 					}
 					out.Label("reset")
 				}
+			case "stopreset":
+				if stopped {
+					continue
+				}
+				if d < 1<<40 {
+					if wait := lastTickOrReset.Add(time.Duration(d - j)).Sub(time.Now()); wait > 0 {
+						time.Sleep(wait) // a tick can fire from now on: its callback may be starting right now
+					}
+				}
+				tk.Stop()
+				tk.Reset(time.Duration(e.D), time.Duration(e.J))
+				select {
+				case ts := <-tk.C: // sent before Stop returned
+					if !ts.After(time.Now()) {
+						ticks, lastTickOrReset = append(ticks, ts), ts
+					}
+				default:
+				}
+				d, j = e.D, e.J
+				cfgs = append(cfgs, cfgChange{time.Now(), d, j})
+				lastTickOrReset = time.Now()
+				notBefore = time.Now().Add(time.Duration(d - j))
+				out.Label("stop-then-reset-at-due-instant")
 			case "stop":
 				if stopped {
 					continue
@@ -450,4 +508,60 @@ func runTicker(p TickerPlan) (vk.Outcome, error) {
 func TestJitterTicker(t *testing.T) {
 	theT = t
 	vk.Run(t, suite, "ticker", 1500, genTicker, runTicker)
+}
+
+// ---------------------------------------------------------------- several tickers at once, under the race detector
+//
+// Each ticker has its own mutex; whatever tickers share (a random source, say) must be safe to use from
+// several of them at once. This kind runs on real goroutines and the real clock and has no timing
+// oracle: the job is built with -race, so an unsynchronised shared access is reported by the detector,
+// and a panic out of NewJitterTicker / Reset / Stop with valid arguments is a violation by itself.
+
+type TickerRacePlan struct {
+	Tickers int `json:"tickers"`
+	Resets  int `json:"resets"`
+}
+
+func genTickerRace(t *rapid.T) TickerRacePlan {
+	return TickerRacePlan{Tickers: rapid.IntRange(2, 6).Draw(t, "tickers"), Resets: rapid.IntRange(200, 2000).Draw(t, "resets")}
+}
+
+func runTickerRace(p TickerRacePlan) (vk.Outcome, error) {
+	var out vk.Outcome
+	var wg sync.WaitGroup
+	errs := make([]error, p.Tickers)
+	for g := 0; g < p.Tickers; g++ {
+		wg.Add(1)
+		go func(g int) {
+			defer wg.Done()
+			panicked, pv := vk.Catch(func() {
+				tk := xtime.NewJitterTicker(time.Millisecond, 500*time.Microsecond)
+				for i := 0; i < p.Resets; i++ {
+					tk.Reset(time.Duration(1+i%3)*time.Millisecond, time.Duration(1+i%7)*100*time.Microsecond)
+					select {
+					case <-tk.C:
+					default:
+					}
+				}
+				tk.Stop()
+			})
+			if panicked {
+				errs[g] = vk.Violf("ticker-domain", "ticker %d of %d operated concurrently: NewJitterTicker/Reset/Stop with valid arguments panicked: %v", g, p.Tickers, pv)
+			}
+		}(g)
+	}
+	wg.Wait()
+	for _, e := range errs {
+		if e != nil {
+			return out, e
+		}
+	}
+	out.NonTrivial, out.Execs = true, p.Tickers*p.Resets
+	return out, nil
+}
+
+func TestTickerRace(t *testing.T) {
+	suite.Crashy = true
+	vk.Run(t, suite, "ticker-race", 30, genTickerRace, runTickerRace)
+	suite.Crashy = false
 }
